@@ -40,6 +40,8 @@ const (
 	ACallGRef              // table[5] := (immutable funcref global = ref.func gleaf); acc = table[5](acc)
 	AAtomicAdd             // acc += atomic.rmw.add(cell A, B)   (only when Atomics)
 	AWide                  // (r0,r1) = wide(acc, i64, f32, f64): multi-value, mixed types; acc = low32(r0) + r1
+	AFarStore              // page A (1..MaxPages-1), cell B := acc|1   (traps out of bounds unless the memory was grown that far)
+	AFarLoad               // acc += page A, cell B                      (same)
 )
 
 const (
@@ -68,13 +70,16 @@ var TrapMsg = []string{
 	"wasm error: out of bounds memory access",
 }
 
+// FarAddr is the address of far cell c of page p: the last NFar words of the page.
+func FarAddr(p, c int32) int32 { return (p+1)*65536 - 4*(NFar-c) }
+
 type Atom struct {
 	K    Kind
 	A, B int32
 }
 
 func (a Atom) String() string {
-	n := []string{"store", "storeacc", "loadacc", "gadd", "call", "callimp", "calli", "host", "trap", "grow", "rec", "tableset", "exit", "meminit", "datadrop", "tableinit", "elemdrop", "tailcall", "stdout", "open", "close", "callgref", "atomicadd", "wide"}[a.K]
+	n := []string{"store", "storeacc", "loadacc", "gadd", "call", "callimp", "calli", "host", "trap", "grow", "rec", "tableset", "exit", "meminit", "datadrop", "tableinit", "elemdrop", "tailcall", "stdout", "open", "close", "callgref", "atomicadd", "wide", "farstore", "farload"}[a.K]
 	return fmt.Sprintf("%s(%d,%d)", n, a.A, a.B)
 }
 
@@ -90,6 +95,7 @@ const NumRetKinds = 7
 
 const (
 	NCells            = 16
+	NFar              = 4 // cells per page beyond the first, at the END of the page
 	NGlobals          = 4
 	TableSize         = 8
 	MaxPages          = 4
@@ -152,7 +158,7 @@ func Generate(t *tape.Tape, o Opts) *Plan {
 		for j := 0; j < na; j++ {
 			val++
 			// weights: store, storeacc, loadacc, gadd, call, callimp, calli, host, trap, grow, rec, tableset, exit, meminit, datadrop, tableinit, elemdrop, tailcall
-			w := []int{4, 3, 2, 3, 4, 0, 0, 0, 0, 0, 0, 0, 0, 0, 0, 0, 0, 0, 0, 0, 0, 0, 0, 0}
+			w := []int{4, 3, 2, 3, 4, 0, 0, 0, 0, 0, 0, 0, 0, 0, 0, 0, 0, 0, 0, 0, 0, 0, 0, 0, 0, 0}
 			if o.Wide {
 				w[AWide] = 2
 			}
@@ -183,6 +189,7 @@ func Generate(t *tape.Tape, o Opts) *Plan {
 			}
 			if o.Grow {
 				w[AGrow] = 1
+				w[AFarStore], w[AFarLoad] = 1, 1
 			}
 			if o.Rec {
 				w[ARec] = 1
@@ -230,6 +237,8 @@ func Generate(t *tape.Tape, o Opts) *Plan {
 				a.A, a.B = int32(t.Choose(NCells)), int32(1+t.Choose(9))
 			case AGrow:
 				a.A = int32(t.Choose(3))
+			case AFarStore, AFarLoad:
+				a.A, a.B = int32(1+t.Choose(MaxPages-1)), int32(t.Choose(NFar))
 			case ARec:
 				// B: 0 unbounded, 1 bounded by acc&15, 2 unbounded for odd acc / bounded for even acc
 				a.A, a.B = int32(t.Choose(2)), int32(t.Choose(3))
@@ -355,6 +364,10 @@ func (p *Plan) Encode() []byte {
 				}
 			case AGrow:
 				c.I32Const(a.A).MemoryGrow().Drop()
+			case AFarStore:
+				c.I32Const(FarAddr(a.A, a.B)).LocalGet(1).I32Const(1).I32Or().I32Store(0)
+			case AFarLoad:
+				c.LocalGet(1).I32Const(FarAddr(a.A, a.B)).I32Load(0).I32Add().LocalSet(1)
 			case ARec:
 				switch a.B {
 				case 0:
